@@ -2,7 +2,7 @@
 import functools
 import itertools
 
-from .. import common, modsearch, statespace
+from .. import cmakegen, common, modsearch, statespace
 from ..statespace import context
 
 ID = "C11"
@@ -63,6 +63,18 @@ def enabled(events, maxnest):
     return out
 
 
+def closed_plain_definitions(events):
+    """has a plain function()/macro() already been opened and closed (capped at 1)? - part of the state: a helper
+    definition inside a test body before a later section is a different situation than none"""
+    st, n = [], 0
+    for ev in events:
+        if ev["k"] in cmakegen.OPENERS:
+            st.append(ev["k"])
+        elif ev["k"] == "close":
+            n += st.pop() in ("function", "macro")
+    return min(n, 1)
+
+
 def _transition(h2, depth, case):
     msgs, dg, nt = modsearch.check_module(h2, None, case)
     return msgs, dg, nt, (modsearch.impl_key(h2, case) if len(h2) < depth else None)
@@ -75,7 +87,7 @@ def expand(history, maxnest, depth, case):
         msgs, dg, nt, impl = _transition(h2, depth, case)
         key = None
         if len(h2) < depth:
-            key = (statespace.model_key(h2), impl)
+            key = (statespace.model_key(h2), impl, closed_plain_definitions(h2))
         out.append(modsearch.result(ev, key, msgs, dg, nt))
     return out
 
